@@ -395,8 +395,11 @@ func BuildGenesis(a *c4eapp.App, enc appparams.EncodingConfig, spec GenesisSpec)
 }
 
 // NewWorld builds an app, InitChains it with the harness genesis and commits block 0.
-func NewWorld(spec GenesisSpec) *World {
-	a, enc := newApp(dbm.NewMemDB())
+func NewWorld(spec GenesisSpec) *World { return NewWorldWith(spec, NodeFlags{}) }
+
+// NewWorldWith: the same on a node started with the given node-local options.
+func NewWorldWith(spec GenesisSpec, flags NodeFlags) *World {
+	a, enc := newAppWith(dbm.NewMemDB(), flags)
 	gs, valSet, valPriv := BuildGenesis(a, enc, spec)
 	stateBytes, err := json.Marshal(gs)
 	if err != nil {
